@@ -21,47 +21,167 @@ let int_of_n = function N0 -> 0 | Npos p -> int_of_p p
 let split c s = List.filter (fun x -> x <> "") (String.split_on_char c s)
 let invalid_tok = "18446744073709551615"
 
-let op_of_low = function
-  | 0 -> EAlloc | 1 -> ERetain | 2 -> ERelease | 3 -> EFree | 4 -> EUse | 5 -> EProbe | 6 -> EClose | 7 -> ERef
-  | _ -> failwith "bad op"
-
+(* the decoding of a logged record is the extracted [event_of_tuple]; u64::MAX does not fit an OCaml int, so the
+   INVALID refcount is built from its 64 one-bits *)
+let rec ones k = if k = 1 then XH else XI (ones (k - 1))
+let n_of_rc rc = if rc = invalid_tok then Npos (ones 64) else n_of_int (int_of_string rc)
 let event_of kind idx ver rc =
-  let rc = if rc = invalid_tok then None else Some (n_of_int (int_of_string rc)) in
-  let key = { kidx = n_of_int idx; kver = n_of_int ver } in
-  if kind land 0x20 <> 0 then { e_store = SH; e_op = EMark (n_of_int (kind land 0x0f)); e_key = key; e_rc = rc }
-  else { e_store = (if kind land 0x10 <> 0 then SC else SH); e_op = op_of_low (kind land 0x0f); e_key = key; e_rc = rc }
+  match event_of_tuple (n_of_int kind) (n_of_int idx) (n_of_int ver) (n_of_rc rc) with
+  | Some e -> e
+  | None -> failwith "bad event kind"
 
-let replay_file path =
+(* ---- replay of an event file ----
+   Every event goes through the extracted monitor step [mstep].  In addition, when an event marks the entry of a
+   closure-layer operation of vm.rs (marks 0..5), the extracted transcription of that operation (Heap/Model.v) is run
+   from the current model state; the events it emits must be, one by one, the next events of the real log, and the
+   state it returns must be the state [mrun] reaches on them (conformance of the real operation with the model).
+   The raw values of closure-typed upvalue cells, which the model takes as an input, are the `ref` events of the log. *)
+type item = Ev of event * string | Seg of string
+
+let load path =
   let ic = open_in path in
-  let m = ref mach_new in
-  let segs = Buffer.create 256 in
-  let status = ref "ok" in
-  let idx = ref 0 in
-  let seg_events = ref [] in
+  let acc = ref [] in
   (try
-     while !status = "ok" do
-       let line = input_line ic in
-       match split ' ' line with
+     while true do
+       match split ' ' (input_line ic) with
        | [ "E"; kind; i; v; rc ] ->
-           let e = event_of (int_of_string kind) (int_of_string i) (int_of_string v) rc in
-           (match mstep !m e with
-            | Some m' -> m := m'; seg_events := e :: !seg_events
-            | None -> status := Printf.sprintf "reject:%d:%s:%s:%s:%s" !idx kind i v rc);
-           incr idx
-       | "S" :: t :: _ ->
-           let evs = List.rev !seg_events in
-           let c w o = int_of_n (count_op w o evs) in
-           let st = settled !m in
-           Buffer.add_string segs
-             (Printf.sprintf " %s:%d:%d:%d:%d:%d:%d:%d" t (int_of_n (live_count !m SC)) (int_of_n (live_count !m SH))
-                (if st then 1 else 0) (c SC EAlloc) (c SC EFree) (c SH EAlloc) (c SH EFree));
-           seg_events := [];
-           if not st then status := "unsettled:" ^ t
+           acc := Ev (event_of (int_of_string kind) (int_of_string i) (int_of_string v) rc,
+                      Printf.sprintf "%s:%s:%s:%s" kind i v rc) :: !acc
+       | "S" :: t :: _ -> acc := Seg t :: !acc
        | _ -> ()
      done
    with End_of_file -> ());
   close_in ic;
-  Printf.printf "T %s ;%s\n" !status (Buffer.contents segs)
+  Array.of_list (List.rev !acc)
+
+let shl32 n = N.shiftl n (n_of_int 32)
+let raw_of_split (k : key) = N.coq_lor (shl32 k.kver) k.kidx     (* the hook splits a raw word into (low, high) *)
+
+(* upvalue oracle for the operation starting at position i: the `ref` events that follow the first later
+   drop_closure / close_upvalues_by_idx mark of each closure *)
+let build_up (items : item array) i : key -> n list =
+  let tbl : (key * n list ref) list ref = ref [] in
+  let cur : n list ref option ref = ref None in
+  let j = ref i in
+  let stop = ref false in
+  while not !stop && !j < Array.length items && !j < i + 20000 do
+    (match items.(!j) with
+     | Seg _ -> stop := true
+     | Ev (e, _) ->
+         (match e.e_op with
+          | EMark n when (int_of_n n = 0 || int_of_n n = 2) ->
+              if List.exists (fun (k, _) -> k = e.e_key) !tbl then cur := None
+              else begin
+                let r = ref [] in
+                tbl := (e.e_key, r) :: !tbl;
+                cur := Some r
+              end
+          | ERef -> (match !cur with Some r -> r := raw_of_split e.e_key :: !r | None -> ())
+          | _ -> ()));
+    incr j
+  done;
+  fun k -> match List.find_opt (fun (k', _) -> k' = k) !tbl with Some (_, r) -> List.rev !r | None -> []
+
+let rec nat_of_int i = if i = 0 then O else S (nat_of_int (i - 1))
+let fuel = nat_of_int 4000
+
+let show_event (e : event) =
+  let st = match e.e_store with SH -> 0 | SC -> 0x10 in
+  let op = match e.e_op with
+    | EAlloc -> 0 | ERetain -> 1 | ERelease -> 2 | EFree -> 3 | EUse -> 4 | EProbe -> 5 | EClose -> 6 | ERef -> 7
+    | EMark n -> 0x20 lor int_of_n n in
+  Printf.sprintf "%d:%d:%d:%s" (if op land 0x20 <> 0 then op else st lor op) (int_of_n e.e_key.kidx) (int_of_n e.e_key.kver)
+    (match e.e_rc with Some n -> (try string_of_int (int_of_n n) with _ -> "big") | None -> "INVALID")
+
+let replay_file path =
+  let items = load path in
+  let n = Array.length items in
+  let m = ref mach_new in
+  let segs = Buffer.create 256 in
+  let status = ref "ok" in
+  let evidx = ref 0 in
+  let seg_events = ref [] in
+  let ops_checked = ref 0 in
+  let i = ref 0 in
+  let step_plain e txt =
+    match mstep !m e with
+    | Some m' -> m := m'; seg_events := e :: !seg_events; true
+    | None -> status := Printf.sprintf "reject:%d:%s" !evidx txt; false in
+  while !status = "ok" && !i < n do
+    (match items.(!i) with
+     | Seg t ->
+         let evs = List.rev !seg_events in
+         let c w o = int_of_n (count_op w o evs) in
+         let st = settled !m in
+         Buffer.add_string segs
+           (Printf.sprintf " %s:%d:%d:%d:%d:%d:%d:%d" t (int_of_n (live_count !m SC)) (int_of_n (live_count !m SH))
+              (if st then 1 else 0) (c SC EAlloc) (c SC EFree) (c SH EAlloc) (c SH EFree));
+         seg_events := [];
+         if not st then status := "unsettled:" ^ t;
+         incr i
+     | Ev (e, txt) ->
+         let predicted =
+           match e.e_op with
+           | EMark mk ->
+               let up = build_up items !i in
+               (match int_of_n mk with
+                | 0 -> Some (drop_closure fuel up !m e.e_key)
+                | 1 -> Some (release_heap_closure fuel up !m e.e_key)
+                | 2 -> Some (close_upvalues_by_idx up !m e.e_key)
+                | 3 -> let (m', evs) = clone_heap !m (raw_of_split e.e_key) in Some (Ok (m', evs))
+                | 4 -> Some (close_heap_closure up !m (raw_of_split e.e_key))
+                | 5 -> let ((m', _), evs) = allocate_heap_closure !m e.e_key.kidx in Some (Ok (m', evs))
+                | _ -> None)
+           | _ -> None in
+         (match predicted with
+          | None -> if step_plain e txt then (incr i; incr evidx)
+          | Some outcome ->
+              let (evs, final) =
+                match outcome with
+                | Ok (m', evs) -> (evs, Some m')
+                | Panicked evs -> (evs, None)
+                | OutOfFuel -> ([], None) in
+              if evs = [] then status := Printf.sprintf "conform:%d:%s:fuel" !evidx txt
+              else begin
+                (* the model's events against the next real events *)
+                let k = ref 0 in
+                List.iter (fun (pe : event) ->
+                  if !status = "ok" then begin
+                    (match (if !i + !k < n then Some items.(!i + !k) else None) with
+                     | Some (Ev (re, rtxt)) ->
+                         if re <> pe then
+                           status := Printf.sprintf "conform:%d:%s:offset%d:model=%s:real=%s" !evidx txt !k (show_event pe) rtxt
+                     | _ -> status := Printf.sprintf "conform:%d:%s:offset%d:model=%s:real=end" !evidx txt !k (show_event pe));
+                    incr k
+                  end) evs;
+                if !status = "ok" then begin
+                  (* the monitor on the same events *)
+                  let before = !m in
+                  let okm = ref true in
+                  List.iter (fun pe -> if !okm then begin
+                    (match mstep !m pe with
+                     | Some m' -> m := m'; seg_events := pe :: !seg_events
+                     | None -> okm := false;
+                         status := Printf.sprintf "reject:%d:%s" !evidx (show_event pe));
+                    if !okm then incr evidx end) evs;
+                  ignore before;
+                  (* [mstep] does not know the words of a heap object (the model operation does: the wrapper of a
+                     closure holds the raw ClosureIdx); compare the two states without them and keep the richer one *)
+                  let strip (s : store) : store =
+                    { s with slots = List.map (fun sl -> { sl with sval = (match sl.sval with
+                        | Some o -> Some { o with odata = [] } | None -> None) }) s.slots } in
+                  (match final with
+                   | Some m' when !okm ->
+                       if strip !m.m_cl <> strip m'.m_cl || strip !m.m_hp <> strip m'.m_hp
+                       then status := Printf.sprintf "conform:%d:%s:state" !evidx txt
+                       else m := m'
+                   | _ -> ());
+                  incr ops_checked;
+                  i := !i + List.length evs
+                end
+              end))
+  done;
+  Printf.printf "T %s ;%s ; ops=%d\n" !status (Buffer.contents segs) !ops_checked
 
 let key_of i v = { kidx = n_of_int (int_of_string i); kver = n_of_int (int_of_string v) }
 
